@@ -1,4 +1,5 @@
 import Aurora.Lemmas.Bmt
+import Aurora.Props.C03Conc
 /-!
 # C03 — BMT chunk hash matches its recursive definition
 
